@@ -34,6 +34,9 @@ type Program struct {
 	Globals map[string]any
 	// NoHelpers suppresses the standard helper files.
 	NoHelpers bool
+	// Detail, when set, regenerates the program so that it prints every individual
+	// evaluation of the given digest case (second pass: first diverging operand).
+	Detail func(caseID string) *Program
 }
 
 // Variant of the GopherJS build.
@@ -320,14 +323,58 @@ func (e *Env) Check(p Program, variants []Variant) {
 			ids = append(ids, c)
 		}
 		sort.Strings(ids)
+		ndetail := 0
 		for _, c := range ids {
 			id := c
 			if v.Name != "plain" {
 				id = c + "@" + v.Name
 			}
-			e.Rep.Violation(id, d[c], e.replayFiles(p, v, want, got, ""))
+			what := d[c]
+			files := e.replayFiles(p, v, want, got, "")
+			if p.Detail != nil && ndetail < 2 && !strings.HasSuffix(c, "/end") {
+				ndetail++
+				if det := e.detail(p, v, c); det != "" {
+					what += " ; first diverging evaluation: " + det
+					files["detail.txt"] = det + "\n"
+				}
+			}
+			e.Rep.Violation(id, what, files)
 		}
 	}
+}
+
+// detail runs the second pass for one failing digest case and returns the first differing line.
+func (e *Env) detail(p Program, v Variant, caseID string) string {
+	dp := p.Detail(caseID)
+	if dp == nil {
+		return ""
+	}
+	dp.Name = p.Name + "_detail"
+	dp.Detail = nil
+	dir, err := e.WriteProgram(*dp)
+	if err != nil {
+		return ""
+	}
+	defer os.RemoveAll(dir)
+	bin, err := ref.BuildNative(dir, strings.Join(dp.Tags, ","))
+	if err != nil {
+		return ""
+	}
+	want := ref.RunNative(bin, 300*time.Second)
+	got, _, _ := e.RunJS(dir, *dp, v)
+	for i := 0; i < len(want.Lines) || i < len(got.Lines); i++ {
+		var a, b string
+		if i < len(want.Lines) {
+			a = want.Lines[i]
+		}
+		if i < len(got.Lines) {
+			b = got.Lines[i]
+		}
+		if a != b {
+			return fmt.Sprintf("want %q got %q", a, b)
+		}
+	}
+	return ""
 }
 
 func (e *Env) replayFiles(p Program, v Variant, want, got ref.Outcome, buildErr string) map[string]string {
